@@ -102,18 +102,33 @@ def ulp(x: float) -> float:
 # ------------------------------------------------------------------ translator / lake
 
 class Lock:
+    """Inter-process lock (flock), re-entrant within one process: the proof stage holds it across
+    regenerate → build → axiom audit → driver snapshot, so that a concurrently running check (possibly
+    against another VERIF_REPO) cannot swap generated files or driver binaries in between."""
+    _held = {}
+
     def __init__(self, name):
         os.makedirs(CACHE, exist_ok=True)
+        self.name = name
         self.path = os.path.join(CACHE, name + '.lock')
 
     def __enter__(self):
-        self.f = open(self.path, 'w')
-        fcntl.flock(self.f, fcntl.LOCK_EX)
+        ent = Lock._held.get(self.name)
+        if ent:
+            ent[1] += 1
+            return self
+        f = open(self.path, 'w')
+        fcntl.flock(f, fcntl.LOCK_EX)
+        Lock._held[self.name] = [f, 1]
         return self
 
     def __exit__(self, *a):
-        fcntl.flock(self.f, fcntl.LOCK_UN)
-        self.f.close()
+        ent = Lock._held[self.name]
+        ent[1] -= 1
+        if ent[1] == 0:
+            fcntl.flock(ent[0], fcntl.LOCK_UN)
+            ent[0].close()
+            del Lock._held[self.name]
 
 
 def run_gen(script):
@@ -195,8 +210,35 @@ def audit_axioms(module, names, ns):
     return ok, res, out, bad, missing
 
 
+_DRIVER_SNAPSHOT = {}
+
+
 def driver_exe(name):
-    return os.path.join(LEAN, '.lake', 'build', 'bin', name)
+    """Path of a driver executable: the private snapshot taken by this process's proof stage right
+    after its own build (same critical section), else lake's output path."""
+    return _DRIVER_SNAPSHOT.get(name) or os.path.join(LEAN, '.lake', 'build', 'bin', name)
+
+
+def snapshot_drivers(names):
+    d = os.path.join(CACHE, 'drv')
+    os.makedirs(d, exist_ok=True)
+    for n in names:
+        src = os.path.join(LEAN, '.lake', 'build', 'bin', n)
+        if os.path.exists(src):
+            dst = os.path.join(d, f'{n}.{os.getpid()}')
+            shutil.copy2(src, dst)
+            _DRIVER_SNAPSHOT[n] = dst
+    import atexit
+
+    def _cleanup():
+        for v in list(_DRIVER_SNAPSHOT.values()):
+            try:
+                os.remove(v)
+            except OSError:
+                pass
+    if not getattr(snapshot_drivers, '_reg', False):
+        atexit.register(_cleanup)
+        snapshot_drivers._reg = True
 
 
 # ------------------------------------------------------------------ C++ harness build (cached)
@@ -382,7 +424,12 @@ def load_known(pid):
 # ------------------------------------------------------------------ the proof half of a check
 
 def proof_stage(rep: Report, pid, gen_scripts, modules, driver=None, extra_sources=(), extra_targets=()):
-    """Steps 1–3. Returns dict(ok=bool, broken=[descriptions], gen=…)."""
+    """Steps 1–3 in one critical section. Returns dict(ok=bool, broken=[descriptions], gen=…)."""
+    with Lock('lake'):
+        return _proof_stage(rep, pid, gen_scripts, modules, driver, extra_sources, extra_targets)
+
+
+def _proof_stage(rep, pid, gen_scripts, modules, driver, extra_sources, extra_targets):
     broken = []
     gen_info = {}
     for g in gen_scripts:
@@ -402,6 +449,7 @@ def proof_stage(rep: Report, pid, gen_scripts, modules, driver=None, extra_sourc
             ok2, _ = lake_build([driver])
             if not ok2:
                 broken.append(f'driver {driver} does not build')
+    snapshot_drivers([t for t in targets if t.startswith('drv_')])
     n_obl = 0
     n_dis = 0
     axioms_seen = set()
